@@ -13,6 +13,7 @@ from .interp_expr import FuncRef, ClassRef, ModRef, BoundMethod, Builtin, UF
 
 
 _DEPTH = {}
+_DEPTH_KEEP = []
 
 
 def term_depth(t, limit=12):
@@ -29,9 +30,11 @@ def term_depth(t, limit=12):
             if d >= limit:
                 break
         d = min(limit, d + 1)
-    if len(_DEPTH) > 300000:
+    if len(_DEPTH) > 100000:
         _DEPTH.clear()
+        del _DEPTH_KEEP[:]
     _DEPTH[k] = d
+    _DEPTH_KEEP.append(t)
     return d
 
 
